@@ -54,10 +54,13 @@ def variants(name, hs, settings):
         if hs[:3] == "md5" and "$" not in hs:
             cut = 3
         head, tail = hs[:cut], hs[cut:]
+        # documented: "MySQL always uses upper-case letters, and so does Passlib (though Passlib will recognize lower-case letters as well)" (mysql41;
+        # mysql323 the other way round): for these two the other case is a documented re-encoding of the same hash
+        doc = name in ("mysql41", "mysql323")
         if tail.upper() != tail:
-            out.append(("hex-upper", head + tail.upper(), False))
+            out.append(("hex-upper", head + tail.upper(), doc))
         if tail.lower() != tail:
-            out.append(("hex-lower", head + tail.lower(), False))
+            out.append(("hex-lower", head + tail.lower(), doc))
     if name in AB64 and "." in hs.split("$", 2)[-1]:
         head, _, tail = hs.rpartition("$")
         if "." in tail:
@@ -112,8 +115,18 @@ def o_handler(rec: Recorder, case, soft=False):
         wrong_differs = f.key(wrong, _ns, ctx) != f.key(secret, _ns, ctx)
     except (UnicodeError, ValueError):
         wrong_differs = False
+    # str and ASCII-bytes input are read alike by every entry point that parses a hash
+    if hs.isascii() and not f.plaintext:
+        hb = hs.encode("ascii")
+        for label, fn in (("identify", lambda x: h.identify(x)), ("verify", lambda x: h.verify(secret, x, **pctx)), ("verify-wrong", lambda x: h.verify(wrong, x, **pctx)),
+                          ("needs_update", lambda x: h.needs_update(x))):
+            a, b = call(fn, hs), call(fn, hb)
+            if a[0] == "err" and not isinstance(a[1], (ValueError, TypeError)):
+                raise a[1]
+            if a[0] == "ok" and (b[0] == "err" or a[1] != b[1]):
+                rec.fail(f"C07/bytes-form/{name}/{label}", f"{name}.{label}() reads the ASCII-bytes form of a produced hash differently from the str form", "handler_roundtrip", case, repr(b[1])[:120], repr(a[1])[:120], soft=soft)
+                return
     if has_fs:
-        fctx = {k: v for k, v in pctx.items() if k == "user" and name in ("cisco_pix", "cisco_asa", "msdcc", "msdcc2", "oracle10", "postgres_md5")} if False else {}
         for form in (hs, hs.encode("ascii") if hs.isascii() else None):
             if form is None:
                 continue
